@@ -61,6 +61,10 @@ async def limit_scenario(loop, case, out, stats, fps, samples):
             w.scripted_actor(r, f"act{i}", queue=q)
             await w.conn.message_broker.queue_declare(q)
         ids = []
+        from repid import PrioritiesT
+
+        PRIOS = [PrioritiesT.MEDIUM, PrioritiesT.MEDIUM, PrioritiesT.HIGH, PrioritiesT.LOW]
+        prio = {}
 
         def dur(qi):
             return [0.10, 0.25, 0.17][qi % 3] if d == "mixed" else d
@@ -71,11 +75,12 @@ async def limit_scenario(loop, case, out, stats, fps, samples):
             id_ = f"j{i:03d}"
             ids.append(id_)
             script = {"do": "ok", "d": dur(qi)}
+            prio[id_] = rnd.choice(PRIOS)
             if case.get("leak") and rnd.random() < 0.3:
                 # the actor lets a CancelledError escape: the execution was started and is over, it counts
                 script = {"do": "raise", "exc": "CancelledError", "d": dur(qi)}
                 stats["leaked_cancellations"] += 1
-            await w.job(f"act{qi}", id_, script, queue=queues[qi], retries=2, timeout=timedelta(seconds=60), store_result=False).enqueue()
+            await w.job(f"act{qi}", id_, script, queue=queues[qi], retries=2, timeout=timedelta(seconds=60), store_result=False, priority=prio[id_]).enqueue()
         graceful = 20.0  # longer than every actor here: forced cancellation is C03's subject
         worker = w.worker([r], messages_limit=M, tasks_limit=tl, graceful_shutdown_time=graceful, handle_signals=[])
         # invariant at a hook (harness-side class-level wrapper): after every task-done callback the stop flag must be
@@ -180,6 +185,21 @@ async def limit_scenario(loop, case, out, stats, fps, samples):
             if st is not None and st[1] is not None and st[1]["tried"] != 0:
                 out.append(V("leftover_touched", kind, "counter", f"{id_} never started but carries already_tried={st[1]['tried']}"))
                 break
+        # ... and still what they were: a fresh consumer gets each waiting leftover once, under its own priority
+        waiting = {i for i in ids if i not in started and snap.get(i) == ["waiting"]}
+        if waiting and not any(v["rule"] == "leftover_touched" for v in out):
+            got = collections.Counter()
+            wrong = []
+            for q in queues:
+                for cat, id_, _payload, _ps, key in await w.rig.drain(w.conn, q, with_key=True):
+                    if id_ in waiting:
+                        got[id_] += 1
+                        if cat != "NORMAL" or (id_ in prio and key.priority != prio[id_].value):
+                            wrong.append((id_, cat, key.priority))
+            stats["leftovers_redelivered"] += sum(got.values())
+            missing = sorted(i for i in waiting if got[i] != 1)
+            if missing or wrong:
+                out.append(V("leftover_touched", kind, "not-redeliverable-as-it-was", f"leftovers beyond the limit are no longer what was enqueued: delivered {dict((i, got[i]) for i in missing[:4])} times, wrong category/priority {wrong[:4]} (enqueued priorities {dict((i, prio[i].value) for i in missing[:4] if i in prio)})"))
         if len(samples) < 1:
             samples.append({"broker": kind, "M": M, "backlog": backlog, "d": d, "tasks_limit": tl, "queues": nq, "starts": len(starts), "returned_after_s": round(t_ret - t0, 3)})
         stats["unknown_server_commands"] += w.rig.unknown_commands()
